@@ -1,7 +1,7 @@
 (* Lmdp — executable model of layers/mdp.go (Cisco Meraki discovery protocol: 28-octet preamble, then type/length/value
    items holding strings, decimal numbers, an IP address and a boolean as text) as repaired (fixer: every TLV checked
    against the packet length; agent-lsmall: the layer is reset at the start of a decode).  Definitions only.
-   /repo/layers/mdp.go: DecodeFromBytes :48-141, SerializeTo :145-151 (writes nothing), NextLayerType :159-161
+   /repo/layers/mdp.go: DecodeFromBytes :52-141, SerializeTo :144-150 (writes nothing), NextLayerType :158-160, decodeMDP :162-170
    (m.Type.LayerType(): EthernetType metadata table, abstract — the id is the EthernetType number).
    strconv.ParseFloat, net.ParseIP and strconv.ParseBool are library functions of the text alone: parameters
    `pf` (the float64 bits), `pip` (nil or 16 octets) and `pb` of the model (results on error: 0 / nil / false, which the
@@ -67,6 +67,15 @@ Definition md_decode_gen (orig : bool) (old : mdp) (data : list Z) : mdp * outco
 
 Definition md_decode_into := md_decode_gen false.
 Definition md_decode_orig := md_decode_gen true.
+
+(* decodeMDP :162-170, the registered decoder: a new object, the packet builder as feedback; on success the layer is added
+   and NextLayerType() = m.Type.LayerType() handed to NextDecoder (LayerTypeMDP itself; Payload is nil, so the packet stops) *)
+Definition md_decode_fn (data : list Z) : mdp * bool * option Z * outcome unit * bool :=
+  let '(l, o, tr) := md_decode_into md_fresh data in
+  match o with
+  | Ok _ => (l, true, Some (md_type l), Ok tt, tr)
+  | _ => (l, false, None, o, tr)
+  end.
 End Parsers.
 
 Definition md_next (l : mdp) : Z := md_type l.                                        (* :159-161 *)
